@@ -2775,6 +2775,19 @@ func (r *Resolver) internalExchange(ctx context.Context, req *dns.Msg) (*dns.Msg
 // subQuery is nil-safe for a nil store — tests and forwarder-only
 // deployments construct a Resolver without one. In that case only
 // the direct-upstream path runs; nothing is cached or read.
+// requestLocalFailure reports whether resp is a failure that belongs to this
+// request alone: one learned inside an optional-enrichment tree, or after the
+// caller's own deadline or cancellation. The store turns a failure response
+// into a shared failure entry that answers everyone's next lookup; the other
+// two writers of that entry — recordResolutionZoneFailure and the cache's
+// response writer — already decline these.
+func requestLocalFailure(ctx context.Context, resp *dns.Msg) bool {
+	if class, _ := dnsutil.ClassifyResponse(resp, time.Now()); class != dnsutil.TypeServerFailure {
+		return false
+	}
+	return middleware.IsBestEffortRecursionWork(ctx) || contextutil.EffectiveError(ctx) != nil
+}
+
 func (r *Resolver) subQuery(ctx context.Context, req *dns.Msg) (*dns.Msg, error) {
 	store := r.store.Load()
 	if store != nil {
@@ -2852,7 +2865,7 @@ func (r *Resolver) subQuery(ctx context.Context, req *dns.Msg) (*dns.Msg, error)
 	if err != nil {
 		return nil, err
 	}
-	if store != nil && resp != nil {
+	if store != nil && resp != nil && !requestLocalFailure(ctx, resp) {
 		// Bound the entry to the delegation cut the sub-resolution
 		// walked (its terminal noteCut calls fed the same ctx sink).
 		// Zero when no sink exists (priming/background) — unbounded,
